@@ -45,6 +45,9 @@ class Sort:
         """Turn a Python-level value into a value of this sort (or raise EngineError)."""
         if isinstance(v, VTerm) and v.sort == self:
             return v
+        if isinstance(v, VOpt) and v.sort.elem == self:
+            # narrowing after an `is not None` test; a None here would raise in Python as well
+            return self.wrap(v.sort.val(v.term))
         raise EngineError(f"cannot coerce {v!r} to sort {self.name}")
 
     def __eq__(self, other: object) -> bool:
